@@ -144,6 +144,28 @@ expect('flat: a pair not sent', 'TraceFlat', frec, fbad, 'ReqIsSpec')
 fbad = copy.deepcopy(frec); fbad['obs']['ncalls'] = 0
 expect('flat: function not called', 'TraceFlat', frec, fbad, 'Delivered')
 
+# ---- C15: TraceModel (a behaviour specification: accepted = every step is an action of SpyneModel with the logged view)
+from harness.checks import c15
+def history(corrupt):
+    pool = c15.fresh_pool()
+    names0 = c15.names_of(pool)
+    steps = []
+    for op in [('CustPrim', 1, 'ge5'), ('Customize', 3, 'min1'), ('CustPrim', 7, 'paexc')]:
+        c15.apply_op(pool, op)
+        steps.append({'op': [x for x in op], 'view': c15.view_of(pool), 'names': c15.names_of(pool)})
+    if corrupt:
+        steps[0]['view'][0]['attrs']['ge'] = 5          # the ORIGINAL Integer reported as changed by the first derivation
+    return {'steps': steps, 'names0': names0}
+tfm = os.path.join(ctx.work, 'model_selftest.ndjson')
+with open(tfm, 'w') as f:
+    f.write(json.dumps(history(False)) + '\n' + json.dumps(history(True)) + '\n')
+cfgm_ = pc.write_cfg(os.path.join(ctx.work, 'tracemodel_st.cfg'), ['SPECIFICATION TSpec', 'CONSTANT MaxOps = 99', 'CONSTRAINT Report', 'CHECK_DEADLOCK FALSE'])
+rtm = tlc.run('TraceModel', cfgm_, ctx.work, env={'TRACE_FILE': tfm}, timeout=600)
+accm = set(p_[1] for p_ in rtm.prints if p_ and p_[0] == 'ACCEPT')
+fine = accm == {1}
+ok = ok and fine
+print('%-28s %-18s real history accepted: %-5s corrupted one rejected: %s %s' % ('model: original changed', 'TraceModel', 1 in accm, 2 not in accm, '' if fine else '   <-- UNEXPECTED'))
+
 import shutil
 shutil.rmtree(ctx.work, ignore_errors=True)
 print('binding self-test: %s' % ('all corruptions rejected' if ok else 'SOMETHING WAS ACCEPTED THAT SHOULD NOT BE'))
